@@ -1533,6 +1533,14 @@ class ReceivePackHandler(PackHandler):
                                     "Attempted to delete refs without "
                                     "delete-refs capability."
                                 )
+                        elif sha not in self.repo.object_store:
+                            ref_status = b"missing necessary objects"
+                            has_failure = True
+                        if ref_status == b"ok" and self._ref_is_stale(
+                            ref, oldsha, zero_sha
+                        ):
+                            ref_status = b"failed to update ref"
+                            has_failure = True
                     except KeyError:
                         ref_status = b"bad ref"
                         has_failure = True
@@ -1554,12 +1562,17 @@ class ReceivePackHandler(PackHandler):
                 try:
                     if sha == zero_sha:
                         try:
-                            self.repo.refs.remove_if_equals(ref, oldsha)
+                            if not self.repo.refs.remove_if_equals(ref, oldsha):
+                                ref_status = b"failed to update ref"
                         except all_exceptions:
                             ref_status = b"failed to delete"
+                    elif sha not in self.repo.object_store:
+                        # Never let a ref name an object we do not have.
+                        ref_status = b"missing necessary objects"
                     else:
                         try:
-                            self.repo.refs.set_if_equals(ref, oldsha, sha)
+                            if not self.repo.refs.set_if_equals(ref, oldsha, sha):
+                                ref_status = b"failed to update ref"
                         except all_exceptions:
                             ref_status = b"failed to write"
                 except KeyError:
@@ -1585,17 +1598,30 @@ class ReceivePackHandler(PackHandler):
                                 "delete-refs capability."
                             )
                         try:
-                            self.repo.refs.remove_if_equals(ref, oldsha)
+                            if not self.repo.refs.remove_if_equals(ref, oldsha):
+                                ref_status = b"failed to update ref"
                         except all_exceptions:
                             ref_status = b"failed to delete"
+                    elif sha not in self.repo.object_store:
+                        # Never let a ref name an object we do not have.
+                        ref_status = b"missing necessary objects"
                     else:
                         try:
-                            self.repo.refs.set_if_equals(ref, oldsha, sha)
+                            if not self.repo.refs.set_if_equals(ref, oldsha, sha):
+                                ref_status = b"failed to update ref"
                         except all_exceptions:
                             ref_status = b"failed to write"
                 except KeyError:
                     ref_status = b"bad ref"
                 yield (ref, ref_status)
+
+    def _ref_is_stale(self, ref: Ref, oldsha: ObjectID, zero_sha: ObjectID) -> bool:
+        """Check whether a ref no longer has the value the client expects."""
+        try:
+            current = self.repo.refs[ref]
+        except KeyError:
+            current = zero_sha
+        return current != oldsha
 
     def _report_status(self, status: Sequence[tuple[bytes, bytes]]) -> None:
         """Report status to client.
